@@ -633,6 +633,301 @@ def cases_shared(ctx, rng, leaf):
 
 
 # ----------------------------------------------------------------------------------------------
+# operand re-use: programs (DAGs) over operator OBJECTS — the same Python object takes part in several operations
+# ----------------------------------------------------------------------------------------------
+# A program is a list of statements; statement k binds object k:
+#   ('leaf', expr) | ('neg', i) | ('mul', i, c) | ('T', i) | ('add', i, j) | ('sub', i, j) | ('addcsr', i, A) | ('subcsr', i, A)
+#   | ('ldot', A, i) | ('rdot', i, A) | ('astype', i, dtype) | ('d2u', i) | ('b2d', i) | ('b2u', i) | ('normalize', i)
+# In the model operands are values (`Prog.run`, Model/LinOp.lean): object k denotes the tree obtained by unfolding the
+# statements (`C15.prog_run_denote`) and a later statement never changes an earlier object (`C15.prog_run_prefix`).
+# After every statement the operands and the result are re-evaluated against their own trees.
+
+STMT_OPERANDS = {'neg': (1,), 'mul': (1,), 'T': (1,), 'add': (1, 2), 'sub': (1, 2), 'addcsr': (1,), 'subcsr': (1,),
+                 'ldot': (2,), 'rdot': (1,), 'astype': (1,), 'd2u': (1,), 'b2d': (1,), 'b2u': (1,), 'normalize': (1,)}
+# CoNeighbor works in place and returns the operand (finding F16i): these statements change their CoNeighbor operand
+CON_IN_PLACE = {('neg', 'only'), ('mul', 'only'), ('ldot', 'only'), ('rdot', 'only'), ('normalize', 'only'), ('sub', 'right'),
+                ('sub', 'both')}
+
+
+def stmt_tree(st, trees):
+    """The expression (tree) that the object bound by the statement denotes."""
+    op = st[0]
+    if op == 'leaf':
+        return st[1]
+    if op in ('neg', 'T', 'd2u', 'b2d', 'b2u', 'normalize'):
+        return (op, trees[st[1]])
+    if op == 'mul':
+        return ('mul', trees[st[1]], st[2])
+    if op == 'astype':
+        return ('astype', trees[st[1]], st[2])
+    if op in ('add', 'sub'):
+        return (op, trees[st[1]], trees[st[2]])
+    if op in ('addcsr', 'subcsr'):
+        return (op, trees[st[1]], st[2])
+    if op == 'ldot':
+        return ('ldot', st[1], trees[st[2]])
+    if op == 'rdot':
+        return ('rdot', trees[st[1]], st[2])
+    raise ToolFailure('unknown statement %r' % (op,))
+
+
+def stmt_apply(st, objs):
+    """Execute the statement on the real objects (no copies: this is the point)."""
+    from sknetwork.linalg import normalize
+    from sknetwork.utils.format import directed2undirected, bipartite2directed, bipartite2undirected
+    op = st[0]
+    if op == 'leaf':
+        return build(st[1])
+    if op == 'neg':
+        return -objs[st[1]]
+    if op == 'mul':
+        return objs[st[1]] * st[2]
+    if op == 'T':
+        return objs[st[1]].T
+    if op == 'add':
+        return objs[st[1]] + objs[st[2]]
+    if op == 'sub':
+        return objs[st[1]] - objs[st[2]]
+    if op == 'addcsr':
+        return objs[st[1]] + st[2].copy()
+    if op == 'subcsr':
+        return objs[st[1]] - st[2].copy()
+    if op == 'ldot':
+        return objs[st[2]].left_sparse_dot(st[1].copy())
+    if op == 'rdot':
+        return objs[st[1]].right_sparse_dot(st[2].copy())
+    if op == 'astype':
+        return objs[st[1]].astype(st[2])
+    if op == 'd2u':
+        return directed2undirected(objs[st[1]])
+    if op == 'b2d':
+        return bipartite2directed(objs[st[1]])
+    if op == 'b2u':
+        return bipartite2undirected(objs[st[1]])
+    if op == 'normalize':
+        return normalize(objs[st[1]])
+    raise ToolFailure('unknown statement %r' % (op,))
+
+
+def stmt_desc(st):
+    out = [st[0]]
+    for pos, x in enumerate(st[1:], start=1):
+        if pos in STMT_OPERANDS.get(st[0], ()):
+            out.append({'index': int(x)})
+        elif isinstance(x, tuple):
+            out.append({'expr': expr_desc(x)})
+        elif sparse.issparse(x):
+            out.append({'mat': mat_desc(x)})
+        elif isinstance(x, str):
+            out.append({'str': x})
+        else:
+            out.append({'num': float(x)})
+    return out
+
+
+def stmt_from_desc(d):
+    out = [d[0]]
+    for x in d[1:]:
+        if 'expr' in x:
+            out.append(expr_from_desc(x['expr']))
+        elif 'mat' in x:
+            out.append(mat_from_desc(x['mat']))
+        elif 'str' in x:
+            out.append(x['str'])
+        elif 'index' in x:
+            out.append(int(x['index']))
+        else:
+            out.append(x['num'])
+    return tuple(out)
+
+
+def class_name(o):
+    k = obj_kind(o)
+    if k == 'slr':
+        return type(o).__name__            # SparseLR or Regularizer
+    return {'pol': 'Polynome', 'con': 'CoNeighbor', 'nrm': 'Normalizer', 'nrmT': 'Normalizer', 'lap': 'Laplacian',
+            'gen': 'LinearOperator'}[k]
+
+
+def cases_for_object(ctx, rng, o, tree, sig, desc, nontriv, queries=2):
+    """Re-evaluate an existing object against the tree it denotes (nothing here may modify the object)."""
+    out = []
+    et = enc_expr(tree)
+    kind = obj_kind(o)
+    r, c = o.shape
+    todo = ['dot'] + rng.sample(['T.dot', 'dotmat', 'sum0', 'sum1', 'sum', 'shape'], queries - 1 if queries > 1 else 0)
+    for q in todo:
+        if q == 'dot':
+            x = rand_vec(rng, c, rng.choice(['int', 'int', 'half']))
+            impl = _call(lambda: _ok_vec(o.dot(x)))
+            spec = 'c15.spec_dot %s %s %s %s' % (et, enc_vec(x), impl[3:], TOL_TOK) if impl.startswith('ok ') else None
+            out.append(Case(('reuse', q, et, enc_vec(x), sig['reuse'], sig['role']), dict(sig, query=q), 'c15.dot %s %s' % (et, enc_vec(x)),
+                            impl, spec, nontriv, dict(desc, query=q), canon='vec'))
+        elif q == 'T.dot' and kind != 'gen':
+            y = rand_vec(rng, r, 'int')
+            ett = enc_expr(('T', tree))
+            impl = _call(lambda: _ok_vec(o.T.dot(y)))
+            spec = 'c15.spec_dot %s %s %s %s' % (ett, enc_vec(y), impl[3:], TOL_TOK) if impl.startswith('ok ') else None
+            out.append(Case(('reuse', q, ett, enc_vec(y), sig['reuse'], sig['role']), dict(sig, query=q), 'c15.dot %s %s' % (ett, enc_vec(y)),
+                            impl, spec, nontriv, dict(desc, query=q), canon='vec'))
+        elif q == 'dotmat':
+            k = rng.randint(1, 2)
+            xm = np.array([[rng.choice([-1, 0, 1, 2]) for _ in range(k)] for _ in range(c)], dtype=float).reshape(c, k)
+            impl = _call(lambda: _ok_mat(o.dot(xm)))
+            spec = 'c15.spec_dotmat %s %s %s %s' % (et, enc_dense(xm), impl[3:], TOL_TOK) if impl.startswith('ok ') else None
+            out.append(Case(('reuse', q, et, enc_dense(xm), sig['reuse'], sig['role']), dict(sig, query=q),
+                            'c15.dotmat %s %s' % (et, enc_dense(xm)), impl, spec, nontriv, dict(desc, query=q), canon='mat'))
+        elif q in ('sum0', 'sum1', 'sum') and kind == 'slr':
+            axis = {'sum0': 0, 'sum1': 1, 'sum': None}[q]
+            ax = {'sum0': '0', 'sum1': '1', 'sum': '2'}[q]
+            impl = _call(lambda: 'ok ' + enc_vec(np.atleast_1d(o.sum(axis=axis))))
+            spec = 'c15.spec_sum %s %s %s %s' % (et, ax, impl[3:], TOL_TOK) if impl.startswith('ok ') else None
+            out.append(Case(('reuse', q, et, sig['reuse'], sig['role']), dict(sig, query=q), 'c15.sum %s %s' % (et, ax), impl, spec,
+                            nontriv, dict(desc, query=q), canon='vec'))
+        elif q == 'shape':
+            out.append(Case(('reuse', q, et, sig['reuse'], sig['role']), dict(sig, query=q), 'c15.shape ' + et, 'ok %d %d' % (r, c),
+                            'c15.spec_shape %s %d %d' % (et, r, c), nontriv, dict(desc, query=q)))
+    return out
+
+
+def _con_ids(o, seen=None):
+    """ids of the CoNeighbor objects reachable from an operator (scipy's combinators keep references to their operands)."""
+    from sknetwork.linalg import CoNeighbor
+    seen = set() if seen is None else seen
+    if isinstance(o, CoNeighbor):
+        seen.add(id(o))
+    for a in getattr(o, 'args', ()) or ():
+        if hasattr(a, 'shape') and hasattr(a, 'dot') and not sparse.issparse(a) and not isinstance(a, np.ndarray):
+            _con_ids(a, seen)
+    return seen
+
+
+def cases_program(ctx, rng, program):
+    """Execute a program on real objects; after every statement re-evaluate its operands and its result."""
+    out = []
+    objs, trees, tainted = [], [], set()
+    pdesc = [stmt_desc(st) for st in program]
+    for k, st in enumerate(program):
+        tree = stmt_tree(st, trees)
+        desc = {'program': pdesc[:k + 1], 'after': k}
+        nontriv = nontrivial_expr(tree)
+        try:
+            o = stmt_apply(st, objs)
+        except ERRORS as ex:
+            # the statement is refused: the model must refuse the unfolded expression the same way
+            out.append(Case(('reuse-construct', enc_expr(tree)), {'entry': 'program', 'aspect': 'construct', 'reuse': st[0]},
+                            'c15.shape ' + enc_expr(tree), 'err ' + type(ex).__name__, None, nontriv, dict(desc, query='construct')))
+            break
+        if not hasattr(o, 'shape') or len(o.shape) != 2:
+            break
+        objs.append(o)
+        trees.append(tree)
+        if st[0] == 'leaf':
+            continue
+        pos = STMT_OPERANDS[st[0]]
+        for n_, ppos in enumerate(pos):
+            i = st[ppos]
+            role = 'only' if len(pos) == 1 else ('left' if n_ == 0 else 'right')
+            if len(pos) == 2 and st[1] == st[2]:
+                if n_ == 1:
+                    continue                       # the same object on both sides: checked once
+                role = 'both'
+            if i in tainted:
+                continue
+            sig = {'entry': class_name(objs[i]), 'aspect': 'operand-unchanged', 'reuse': st[0], 'role': role}
+            out += cases_for_object(ctx, rng, objs[i], trees[i], sig, dict(desc, checked=i), nontrivial_expr(trees[i]), queries=3)
+            if obj_kind(objs[i]) == 'con' and (st[0], role) in CON_IN_PLACE:
+                # known in-place family: everything that references this object has changed with it
+                ids = _con_ids(objs[i])
+                for j, oj in enumerate(objs):
+                    if _con_ids(oj) & ids:
+                        tainted.add(j)
+        if k not in tainted and not any(st[ppos] in tainted for ppos in pos):
+            sig = {'entry': class_name(o), 'aspect': 'dag-result', 'reuse': st[0], 'role': 'result'}
+            out += cases_for_object(ctx, rng, o, tree, sig, dict(desc, checked=k), nontriv, queries=2)
+        elif any(st[ppos] in tainted for ppos in pos):
+            tainted.add(k)
+    return out
+
+
+def rand_program(rng, length):
+    """A random program in which objects are used again: operands are drawn from the objects already bound."""
+    program, objs, trees = [], [], []
+    first = rand_leaf(rng)
+    program.append(('leaf', first))
+    for _ in range(length):
+        # replay the program on scratch objects to know kinds and shapes (the checked run is done by cases_program)
+        objs = []
+        ok = True
+        for st in program:
+            try:
+                objs.append(stmt_apply(st, objs))
+            except ERRORS:
+                ok = False
+                break
+        if not ok or not objs:
+            return program
+        i = rng.randrange(len(objs)) if rng.random() < 0.7 else len(objs) - 1
+        o = objs[i]
+        if not hasattr(o, 'shape') or len(o.shape) != 2:
+            return program
+        kind, shape = obj_kind(o), tuple(o.shape)
+        if kind == 'slr':
+            ops = ['neg', 'add', 'sub', 'add', 'sub', 'addcsr', 'subcsr', 'mul', 'T', 'ldot', 'rdot', 'astype', 'normalize']
+            if shape[0] + shape[1] <= 8:
+                ops += ['b2d', 'b2u']
+            if shape[0] == shape[1]:
+                ops += ['d2u']
+        elif kind == 'pol':
+            ops = ['neg', 'mul', 'T', 'add', 'sub']
+        elif kind == 'con':
+            ops = ['neg', 'mul', 'T', 'ldot', 'rdot', 'astype', 'normalize', 'add', 'sub']
+        elif kind in ('nrm', 'nrmT'):
+            ops = ['T', 'neg', 'mul', 'add', 'sub']
+        elif kind == 'lap':
+            ops = ['T', 'astype', 'neg', 'mul', 'add', 'sub']
+        else:
+            ops = ['neg', 'mul', 'add', 'sub']
+        op = rng.choice(ops)
+        if op in ('neg', 'T', 'd2u', 'b2d', 'b2u'):
+            program.append((op, i))
+        elif op == 'normalize':
+            try:
+                sums = np.asarray(o.dot(np.ones(shape[1])), dtype=float)
+            except ERRORS:
+                sums = np.zeros(0)
+            scale = 1 + float(np.max(np.abs(sums))) if len(sums) else 1.0
+            if np.any((np.abs(sums) > 0) & (np.abs(sums) < 1e-6 * scale)):
+                TIE_SKIPPED[0] += 1
+                continue
+            program.append((op, i))
+        elif op == 'mul':
+            program.append(('mul', i, rng.choice(SCALARS)))
+        elif op == 'astype':
+            program.append(('astype', i, rng.choice(['float', 'float64'])))
+        elif op in ('addcsr', 'subcsr'):
+            program.append((op, i, rand_matrix(rng, *shape)))
+        elif op == 'ldot':
+            k = rand_dim(rng, 1, 4) if rng.random() < 0.5 else shape[0]
+            program.append(('ldot', rand_matrix(rng, k, shape[0], density=0.6), i))
+        elif op == 'rdot':
+            k = rand_dim(rng, 1, 4) if rng.random() < 0.5 else shape[1]
+            program.append(('rdot', i, rand_matrix(rng, shape[1], k, density=0.6)))
+        else:
+            # binary: the second operand is an object already bound (possibly the same one) when one fits, else a new leaf
+            fits = [j for j, oj in enumerate(objs) if hasattr(oj, 'shape') and tuple(oj.shape) == shape
+                    and (kind != 'slr' or obj_kind(oj) == 'slr')]
+            if fits and rng.random() < 0.6:
+                j = rng.choice(fits)
+            else:
+                leaf_kind = rng.choice(['slr', 'reg']) if kind == 'slr' else None
+                program.append(('leaf', rand_leaf(rng, leaf_kind, shape)))
+                j = len(program) - 1
+            program.append((op, i, j) if rng.random() < 0.6 else (op, j, i))
+    return program
+
+
+# ----------------------------------------------------------------------------------------------
 # utilities
 # ----------------------------------------------------------------------------------------------
 def _spec_same_mat(cmd, impl):
@@ -953,6 +1248,33 @@ def evaluate(ctx, cases):
 # ----------------------------------------------------------------------------------------------
 # generators
 # ----------------------------------------------------------------------------------------------
+def fixed_reuse_programs():
+    """For every class: the operand takes part in a sum, a difference, a scaling / negation, a transposition and (where
+    the class has them) the sparse products, and is used again afterwards."""
+    a = sparse.csr_matrix(np.array([[1., 2, 0], [0, 0, 0], [3, 0, 1]]))
+    b = sparse.csr_matrix(np.array([[0., 1, 1], [2, 0, 0], [0, 0, 0]]))
+    r = sparse.csr_matrix(np.array([[1., 0, 2, 0], [0, 0, 0, 0]]))
+    r2 = sparse.csr_matrix(np.array([[0., 3, 0, 1], [1, 0, 0, 0]]))
+    m = sparse.csr_matrix(np.array([[1., 1], [0, 2], [1, 0]]))
+    leaves = {
+        'slr': (('slr', r, [(np.array([1., -1]), np.array([1., 0, 2, 1]))], False),
+                ('slr', r2, [(np.array([2., 1]), np.array([0., 1, 1, 0])), (np.array([0., 1]), np.array([1., 1, 0, 0]))], False)),
+        'reg': (('reg', r, 0.5), ('slr', r2, [(np.array([2., 1]), np.array([0., 1, 1, 0]))], False)),
+        'nrm': (('nrm', a, 1), ('nrm', b, 0)),
+        'lap': (('lap', a, 0.5, False), ('lap', b, 0, False)),
+        'con': (('con', a, True), ('con', b, False)),
+        'pol': (('pol', a, [1.0, 2.0, -1.0]), ('pol', b, [0.5, 1.0])),
+    }
+    for kind, (x, y) in leaves.items():
+        prog = [('leaf', x), ('leaf', y), ('add', 0, 1), ('sub', 0, 1), ('mul', 0, 2), ('neg', 0), ('T', 0), ('add', 0, 0)]
+        if kind in ('slr', 'reg'):
+            prog += [('addcsr', 0, r2), ('ldot', m, 0), ('rdot', 0, sparse.csr_matrix(np.ones((4, 2)))), ('normalize', 0),
+                     ('b2u', 0), ('astype', 0, 'float'), ('sub', 2, 0)]
+        if kind == 'con':
+            prog += [('astype', 0, 'float')]
+        yield prog, kind
+
+
 def small_binary_matrices(max_r=2, max_c=2):
     for r in range(1, max_r + 1):
         for c in range(1, max_c + 1):
@@ -1009,6 +1331,14 @@ def build_cases(ctx):
     for i in range(12 if quick else 80):
         for kind in ('slr', 'pol', 'con', 'nrm', 'lap'):
             cases += cases_shared(ctx, rng, rand_leaf(rng, kind))
+    # (c') operand re-use: programs over operator objects (every class), operands re-evaluated after each operation
+    for a_, b_ in fixed_reuse_programs():
+        cases += cases_program(ctx, rng, a_)
+        ctx.count('reuse:fixed-program')
+    for i in range(90 if quick else 900):
+        prog = rand_program(rng, rng.randint(2, 5))
+        cases += cases_program(ctx, rng, prog)
+        ctx.count('reuse:program-length%d' % len(prog))
     # (d) utilities on matrices
     mats = list(small_binary_matrices(2, 2))
     for i in range(60 if quick else 900):
@@ -1200,6 +1530,8 @@ def cases_from_payload(ctx, case):
         if e[0] == 'T' and case.get('query', '').startswith('T.'):
             e = e[1]
         return cases_for_expr(ctx, rng, e, full=True)
+    if 'program' in case:
+        return cases_program(ctx, rng, [stmt_from_desc(d) for d in case['program']])
     if 'shared' in case:
         return cases_shared(ctx, rng, expr_from_desc(case['leaf']))
     f = case.get('f')
